@@ -103,6 +103,13 @@ func (rr *RelayRun) execRtspPull(k *sim.Kernel, op RelayOp) {
 				k.Fault("origin_answers_describe_late")
 			}
 		}
+	case "rtsp_origin_close":
+		for _, o := range rr.rtspOrigins {
+			if !o.closed {
+				o.conn.CloseByPeer()
+				k.Fault("origin_closes")
+			}
+		}
 	}
 }
 
@@ -141,12 +148,23 @@ func genC03RtspPull(r *sim.Rng, tier string) RelayPlan {
 				first = x.a - 1
 			}
 		}
+		// ... and in half of these plans the origin goes away later (the pull was started without retries): the stream is
+		// free again for the publishers that follow
+		closeAt := -1
+		n := r.Intn(3)
+		if r.Bool(0.5) {
+			closeAt = first + r.Intn(len(pl.Ops)-first)
+			n = 0
+		}
 		var ops []RelayOp
 		for i, op := range pl.Ops {
 			if i == first {
-				ops = append(ops, RelayOp{Kind: "rtsp_pull_start", Pub: 0, N: r.Intn(3)}, RelayOp{Kind: "settle"}, RelayOp{Kind: "rtsp_pull_release"}, RelayOp{Kind: "settle"})
+				ops = append(ops, RelayOp{Kind: "rtsp_pull_start", Pub: 0, N: n}, RelayOp{Kind: "settle"}, RelayOp{Kind: "rtsp_pull_release"}, RelayOp{Kind: "settle"})
 			}
 			ops = append(ops, op)
+			if i == closeAt {
+				ops = append(ops, RelayOp{Kind: "rtsp_origin_close"}, RelayOp{Kind: "settle"})
+			}
 		}
 		pl.Ops = ops
 		return pl
@@ -212,6 +230,22 @@ func checkC03RtspPull(k *sim.Kernel, rr *RelayRun) {
 				}
 			}
 			k.Probe("nontrivial")
+		}
+		// the stat API lists no pull session whose stop has been notified (the run has settled long ago)
+		st := rr.W.Api("api-stat-rtsppull", "/api/stat/group?stream_name="+StreamName(0), nil)
+		var g struct {
+			Data struct {
+				Pull struct {
+					SessionId string `json:"session_id"`
+				} `json:"pull"`
+			} `json:"data"`
+		}
+		if st.Done && json.Unmarshal(st.Body, &g) == nil && g.Data.Pull.SessionId != "" {
+			for _, e := range evs {
+				if e.Kind == "pull_stop" && e.SessionId == g.Data.Pull.SessionId {
+					k.Violate("C03.stat-detached-session", "the stat API lists relay pull session %s of stream %s although its stop was notified (the origin closed the connection)", e.SessionId, e.Stream)
+				}
+			}
 		}
 		k.Probe("c03_rtsppull_attached")
 		return
